@@ -42,6 +42,13 @@ CLAIMED["C08"] = (
     "equivalence on every path, including int-valued states and intervals longer than pi.",
     "1-2 goal states, trajectories of <= 3 states; polygons from a concrete family at a symbolic offset; floats as reals; "
     "shapely replaced by shapely-lite; atan2 axiomatised", "2/C08")
+CLAIMED["C09"] = (
+    "Bounded model checking of the id pool: every program of k operations (add / remove single and list form / remove lanelet "
+    "with and without referenced elements / generate_object_id / replace_lanelet_network) over a universe of 18 objects with "
+    "colliding ids runs on the real Scenario in lock-step with an abstract id-pool model; the operation choices are enumerated "
+    "exhaustively by the engine's solver-driven path exploration.",
+    "k = 2 (quick) / 3 (thorough) operations from a populated scenario; purely discrete state, so the solver enumerates "
+    "rather than generalises; longer histories are outside the claim", "2/C09")
 NOT_YET = {}
 
 props = [json.loads(l) for l in open(os.path.join(ROOT, "properties.jsonl"))]
